@@ -250,10 +250,16 @@ PROPS = {
              "path to every return, so a zero divisor reaches the documented panic (R-GUARD/zero-divisor); (c) no todo!/"
              "unimplemented! is reachable from any public item of the crate (R-UNIMPL); (d) no overflow assertion outside "
              "the division kernels is undischarged in overflow-checked builds (R-TOTAL/overflow-checks, 1 reviewed row); (e) the "
-             "12 / % operator impls forward to the inherent method with dividend and divisor in order (R-FACADE/operators)",
-             "the Euclidean contract; that no non-zero divisor panics inside the Knuth kernels (C14, not applicable)",
-             rules_C03, ["the Euclidean contract", "no non-zero divisor panics (kernel indices are run-time values)",
-                         "values of div_ceil / next_multiple_of"]),
+             "12 / % operator impls forward to the inherent method with dividend and divisor in order (R-FACADE/operators); "
+             "(f) with a non-zero divisor the checked forms reach no panic site inside the division kernels either: every "
+             "bounds check, slice range, copy_from_slice and copy_within of src/algorithms/div is inventoried and "
+             "discharged -- intervals, or D-lin, a linear-inequality domain over slice lengths, loop ranges / counters and "
+             "the kernels' documented length preconditions, which are proved at their call sites (R-TOTAL with kernel "
+             "scope; the 1x1 native division is a reviewed row)",
+             "the Euclidean contract (quotient and remainder values); arithmetic-overflow assertions inside the kernels in "
+             "overflow-checked builds",
+             rules_C03, ["the Euclidean contract", "values of div_ceil / next_multiple_of",
+                         "overflow assertions inside src/algorithms/div in overflow-checked builds"]),
     "C04": P("C04", "(i) every public constant/function that can bring a Uint/Bits into existence reaches a body that "
              "evaluates Uint::LIMBS for its own (BITS, LIMBS), with delegation through generic dispatch discharged by "
              "induction over local candidate impls (R-LIMBS, both rand configurations) and confirmed by 76 compile-fail "
@@ -365,7 +371,7 @@ PROPS = {
              "D-lin, a linear-inequality domain over slice lengths, loop variables and their defining ranges "
              "(`j <= m`, `m = len(numerator) - n`, `n >= 3` give `j + n - 3 < len(numerator)`; `&x[..=i]` is `i + 1` long; "
              "rposition yields an index below the length; unsigned subtractions are only linearised when proved not to "
-             "wrap) -- the dispatcher `div` for numerators longer, equal and shorter than the divisor and any zero "
+             "wrap; re-assigned loop counters carry inductive invariants) -- the dispatcher `div` for numerators longer, equal and shorter than the divisor and any zero "
              "padding; its zero-divisor panic is the documented one; the 1x1 path's native division is a reviewed row "
              "(R-TOTAL)",
              "quotient and remainder values, agreement between the specialised kernels, reciprocal values (the seed table is "
